@@ -6,6 +6,8 @@ import (
 	"fmt"
 	"go/token"
 	"go/types"
+	"os"
+	"strings"
 
 	"golang.org/x/tools/go/ssa"
 )
@@ -333,9 +335,71 @@ func ruleReaderWindow(c *Ctx, r *Report, prefix string) {
 				}
 			}
 		}
+		if okInit && okUse && !okMax {
+			// the same through TERM: on every path the DictCap of the configuration NewReader2 is
+			// called on is the declared or the configured size, and the path condition orders it
+			// above the other one (a helper returning max(a, b) from two returns reads like this)
+			okMax = windowIsMaxByPaths(c, fn, "NewReader2")
+		}
 		r.Check(okInit && okMax && okUse, rule, "lzmaFilter.reader:max", c.Pos(fn.Pos()), "LZMA2 window = max(ReaderConfig.DictCap, declared dictionary size)",
 			fmt.Sprintf("the LZMA2 reader's DictCap is not max(ReaderConfig.DictCap, declared size) (init from config=%v, max with declared=%v, used=%v)", okInit, okMax, okUse))
 	}
+}
+
+func windowIsMaxByPaths(c *Ctx, fn *ssa.Function, ctor string) bool {
+	type snap struct {
+		val   string
+		conds []string
+	}
+	var snaps []snap
+	_, over := collectTermPaths(c, termSpec{Fn: fn, Event: func(env *termEnv, call *ssa.Call, callee *ssa.Function) (bool, string) {
+		if callee == nil || callee.Name() != ctor {
+			return false, ""
+		}
+		base := ""
+		if u, ok := call.Call.Args[0].(*ssa.UnOp); ok && u.Op == token.MUL {
+			base = env.path(u.X)
+		}
+		snaps = append(snaps, snap{env.s.mem[base+".DictCap"], append([]string(nil), env.s.conds...)})
+		return true, ""
+	}})
+	if os.Getenv("XZV_TRACE") != "" {
+		fmt.Printf("windowIsMaxByPaths over=%v snaps=%v\n", over, snaps)
+	}
+	if over || len(snaps) == 0 {
+		return false
+	}
+	declared := func(t string) bool { return strings.Contains(t, ".dictCap") }
+	configured := func(t string) bool { return strings.HasSuffix(t, ".DictCap") }
+	for _, sn := range snaps {
+		ok := false
+		for _, cd := range sn.conds {
+			if len(cd) < 2 || cd[0] != '(' {
+				continue
+			}
+			parts := splitTerm(cd[1 : len(cd)-1])
+			if len(parts) != 3 {
+				continue
+			}
+			op, x, y := parts[0], parts[1], parts[2]
+			var other string
+			switch {
+			case x == sn.val && (op == "gt" || op == "ge"):
+				other = y
+			case y == sn.val && (op == "lt" || op == "le"):
+				other = x
+			default:
+				continue
+			}
+			if (declared(sn.val) && configured(other)) || (configured(sn.val) && declared(other)) {
+				ok = true
+			}
+		}
+		if !ok {
+			return false
+		}
+	}
+	return true
 }
 
 func isDictCapParamField(v ssa.Value, fn *ssa.Function) bool {
